@@ -50,6 +50,22 @@ fn main() {
             std::process::exit(1);
         }
         "empty_fail" => std::process::exit(1),
+        "ok_then_signal" => {
+            // libtest reports the test as ok, then the cargo process itself is killed before it can exit
+            println!("\nrunning 1 test\ntest {test_fn} ... ok\n\ntest result: ok. 1 passed; 0 failed; 0 ignored; 0 measured; 0 filtered out; finished in 0.00s\n");
+            let _ = std::io::stdout().flush();
+            unsafe {
+                libc::kill(libc::getpid(), libc::SIGKILL);
+            }
+            std::thread::sleep(std::time::Duration::from_secs(5));
+            std::process::exit(0);
+        }
+        "ok_then_exit1" => {
+            // output claims success, the exit status says failure (e.g. a doctest or another target failed afterwards)
+            println!("\nrunning 1 test\ntest {test_fn} ... ok\n\ntest result: ok. 1 passed; 0 failed; 0 ignored; 0 measured; 0 filtered out; finished in 0.00s\n");
+            eprintln!("error: test failed, to rerun pass `--doc`");
+            std::process::exit(101);
+        }
         "huge" => {
             let line = "x".repeat(1000);
             let out = std::io::stdout();
